@@ -89,3 +89,51 @@ def session(exe, fen, park, go='go infinite', stop_delay=0.0, wait=6.0, extra_en
     return {'bestmoves': best, 'readyok_t': ready[0] if ready else None, 'ready_sent': ready_sent, 'stop_t': stop_t,
             'parked_t': parked[0] if parked else None, 'stderr': '\n'.join(l for _, l in errs), 'rc': p.returncode,
             'infos': sum(1 for _, l in lines if l.startswith('info')), 'dead': dead}
+
+
+def go_again_session(exe, fen, park_ms=500, wait=8.0):
+    """`go depth 1`; the search thread is parked right after its `bestmove` line has been written (VERIF_PARK=8:1:ms); the moment the
+    bestmove is visible the GUI sends the next `position` and `go depth 1`: that second `go` must be answered too."""
+    env = dict(os.environ)
+    env['ASAN_OPTIONS'] = 'detect_leaks=0'
+    env['VERIF_PARK'] = '8:1:%d' % park_ms
+    p = subprocess.Popen([exe, 'uci'], stdin=subprocess.PIPE, stdout=subprocess.PIPE, stderr=subprocess.PIPE, text=True, env=env, bufsize=1)
+    lines, errs = [], []
+    t0 = time.time()
+
+    def rd():
+        for l in p.stdout:
+            lines.append((time.time() - t0, l.rstrip('\n')))
+
+    def rde():
+        for l in p.stderr:
+            errs.append((time.time() - t0, l.rstrip('\n')))
+    th = threading.Thread(target=rd, daemon=True); th.start()
+    the = threading.Thread(target=rde, daemon=True); the.start()
+
+    def send(s):
+        try:
+            p.stdin.write(s + '\n'); p.stdin.flush()
+        except Exception:
+            pass
+    send('position fen ' + fen)
+    send('go depth 1')
+    lim = time.time() + wait
+    while time.time() < lim and not any(l.startswith('bestmove') for _, l in lines):
+        time.sleep(0.001)
+    first = sum(1 for _, l in lines if l.startswith('bestmove'))
+    send('position fen ' + fen)
+    send('go depth 1')
+    lim = time.time() + wait
+    while time.time() < lim and sum(1 for _, l in lines if l.startswith('bestmove')) < 2:
+        time.sleep(0.005)
+    time.sleep(0.2)
+    send('quit')
+    try:
+        p.stdin.close()
+        p.wait(timeout=5)
+    except Exception:
+        p.kill()
+    th.join(timeout=1); the.join(timeout=1)
+    return {'first': first, 'bestmoves': [l for _, l in lines if l.startswith('bestmove')], 'parked': any('afterbest' in l for _, l in errs),
+            'stderr': '\n'.join(l for _, l in errs)}
